@@ -1,1 +1,3 @@
-import GV.Model.NameHash
+import GV.Props.C12
+import GV.Props.C16
+import GV.Props.C20
